@@ -185,9 +185,16 @@ H_RUN = Harness(
                   "partition": ["W", "N", "E", "D", "dup"], "filter": (lambda f: (f["D"] < 2 or f["N"] <= 2) and (f["dup"] == 0 or (f["N"] in (2, 3) and f["D"] == 1))), "timeout": 200,
                   "extra_pre": ["second == 0 or (N <= 2 and dup == 0 and D <= 1)"],
                   "twin_fixed": {"W": 2, "N": 3, "E": 1, "D": 1, "dup": 0}},
-        "thorough": {"ranges": {"N": (0, 5), "efn": (0, 3)},
-                     "partition": ["W", "N", "E", "D", "poison"], "filter": (lambda f: f["poison"] <= f["N"]), "timeout": 1500,
-                     "twin_fixed": {"W": 2, "N": 3, "E": 1, "D": 1, "poison": 0}},
+        # thorough: the quick space widened one dimension at a time (a full cross product is out of reach): a third worker,
+        # extra pending 2, a third death, poison on any input, refusing enqueue function, callable input source, two pipes
+        # ready at once, pairwise-equal inputs, second run
+        "thorough": {"ranges": {"W": (1, 3), "N": (0, 4), "E": (0, 2), "D": (0, 3), "poison": (0, 4), "efn": (0, 3), "dup": (0, 2)},
+                     "partition": ["W", "N", "E", "D", "dup"],
+                     "filter": (lambda f: (f["W"] <= 2 or (f["N"] <= 3 and f["D"] <= 1 and f["E"] <= 1)) and (f["E"] <= 1 or (f["N"] <= 3 and f["D"] <= 1))
+                                and (f["D"] <= 1 or f["N"] <= 2 + (f["D"] == 2)) and (f["dup"] == 0 or (f["N"] in (2, 3) and f["D"] == 1 and f["W"] == 2))),
+                     "extra_pre": ["(efn > 0) + (callsrc > 0) + (dbl > 0) + (second > 0) + (poison > 1) <= 1",
+                                   "second == 0 or (N <= 3 and D <= 1)", "efn == 0 or N <= 3"],
+                     "timeout": 1200, "twin_fixed": {"W": 2, "N": 3, "E": 1, "D": 1, "dup": 0}},
     },
     functions=_FUNCS,
 )
